@@ -5,5 +5,5 @@ from props._local import run_local
 def run(ctx):
     r = run_local(ctx, "C06", {"ground", "sound"}, gen.ALGS, ["affine_eq_ground", "affine_zero_coeffs", "no_sub_cycle_n2"],
                   "runAlg (NucsModel/Registry.lean) vs compute_domains_* on instantiated boxes and boxes collapsing to a point")
-    r["partial"] = ["GroundOk proved for the algorithms listed under coverage.theorems; gcc with a zero capacity is a recorded known finding (K1)"]
+    r["partial"] = ["GroundOk is proved for all 21 algorithms (no_sub_cycle: on permutations); gcc with a zero capacity is known finding K1 (the code is wrong there; those inputs are excluded from the correspondence by predicate)"]
     return r
